@@ -21,7 +21,7 @@ def probe(ty, tr):
 
 
 def tname(t):
-    return {"u8": "u8", "u16": "u16"}.get(t, "W")
+    return {"u8": "u8", "u16": "u16", RT + "T": "T"}.get(t, "W")
 
 
 def gen_case(seed, k, cap):
@@ -43,7 +43,7 @@ def gen_case(seed, k, cap):
             %sobs("c%d", "into_%s", i, -1, &%spfp(&r));
         }""" % (len(vals), RT, t, RT, k, tname(t), RT))
     pr = []
-    for t in ["u8", "u16", RT + "W"] + UNREQUESTED:
+    for t in ["u8", "u16", RT + "W", RT + "T"] + UNREQUESTED:
         pr.append("(%s) as u8" % probe(td.inst(), "::core::convert::Into<%s>" % t))
     drive.append("        let p: Vec<u8> = vec![%s];\n        %sbegin(); %sobs(\"c%d\", \"probes\", 0, -1, &format!(\"{:?}\", p));"
                  % (", ".join(pr), RT, RT, k))
@@ -71,7 +71,10 @@ def expected(td, v, tgt):
     a = fs[f.slot]
     short = tname(tgt)
     if method:
-        return {"u8": "u8:%d" % (a + 100), "u16": "u16:%d" % (a + 1000), "W": "W:%d" % (a + 5000)}[short]
+        return {"u8": "u8:%d" % (a + 100), "u16": "u16:%d" % (a + 1000), "W": "W:%d" % (a + 5000),
+                "T": "T8.88.%d.0" % a}[short]
+    if short == "T":
+        return "T0.%d.%d.0" % (f.slot, a)
     leaf = BH.leaf_of(f.kind, garg) if f.kind.key != "U8" else "U8"
     if f.ty == tgt:
         return "%s:%d" % (short, a)
@@ -101,7 +104,7 @@ def judge(chk, c, obs, dropped):
         if op == "probes":
             probes = json.loads(res[0])
             continue
-        tgt = {"into_u8": "u8", "into_u16": "u16", "into_W": RT + "W"}[op]
+        tgt = {"into_u8": "u8", "into_u16": "u16", "into_W": RT + "W", "into_T": RT + "T"}[op]
         want = expected(td, c.vals[i], tgt)
         seen += 1
         if res[0] != want:
@@ -111,7 +114,7 @@ def judge(chk, c, obs, dropped):
     if probes is None or seen != len(c.vals) * len(c.info["targets"]):
         chk.inconc("incomplete-output")
         return
-    allt = ["u8", "u16", RT + "W"] + UNREQUESTED
+    allt = ["u8", "u16", RT + "W", RT + "T"] + UNREQUESTED
     for t, p in zip(allt, probes):
         want = t in c.info["targets"]
         if bool(p) != want:
